@@ -79,7 +79,7 @@ class ModeAggregator(Aggregator):
             if weights is None:
                 weighted_counts += eye_arr[y_mode_models[i]] / n_predictors
             else:
-                weighted_counts += eye_arr[y_mode_models[i]] * weights[i]
+                weighted_counts += eye_arr[y_mode_models[i]] * weights[i] / np.sum(weights)
 
         y_mode_ensemble = weighted_counts.argmax(axis=-1)
         if is_masked:
